@@ -609,10 +609,8 @@ class SIZE(Command):
             self.dz = p[2]
 
     def _as_text(self):
-        if all([self.dx, self.dy, self.dz]):
-            return "SIZE {:,g} {:,g} {:,g}".format(self.dx, self.dy, self.dz)
-        else:
-            return ""
+        values = [x for x in (self.dx, self.dy, self.dz) if x is not None]
+        return " ".join(["SIZE"] + ["{:g}".format(x) for x in values])
 
     @property
     def max(self):
@@ -906,10 +904,12 @@ class ACTA(Command):
         self.shx = shx
 
     def _as_str(self):
+        text = "ACTA"
         if self.twotheta:
-            return f"ACTA {self.twotheta[0]:,g}"
-        else:
-            return "ACTA"
+            text += f" {self.twotheta[0]:g}"
+        if self.nohkl:
+            text += " " + " ".join(self.nohkl)
+        return text
 
     def __repr__(self):
         return self._as_str()
@@ -1813,7 +1813,7 @@ class UNIT(Command):
         yield [x for x in self.values]
 
     def __repr__(self) -> str:
-        return "UNIT " + "  ".join(["{:,g}".format(x) for x in self.values])
+        return "UNIT " + "  ".join(["{:g}".format(x) for x in self.values])
 
     def __str__(self) -> str:
         return self.__repr__()
